@@ -1183,6 +1183,22 @@ func runE2E(e *e2eLab, t *trace.T, sc scenario, r *rand.Rand) (aborted bool) {
 			npanic++
 		}
 	}
+	// the configuration may have changed between phase one and the rollback (a rolling upgrade, a second service on
+	// the same undo_log table): the context stored beside the log names the decoder, not today's settings
+	if r.Intn(2) == 0 {
+		saved := undo.UndoConfig
+		if undo.UndoConfig.LogSerialization == "protobuf" {
+			undo.UndoConfig.LogSerialization = "json"
+		} else {
+			undo.UndoConfig.LogSerialization = "protobuf"
+		}
+		if strings.EqualFold(undo.UndoConfig.CompressConfig.Type, "Gzip") {
+			undo.UndoConfig.CompressConfig.Type = "Zstd"
+		} else {
+			undo.UndoConfig.CompressConfig.Type = "Gzip"
+		}
+		defer func() { undo.UndoConfig = saved }()
+	}
 	status, _ := lab.Rollback(xid, bid, 0)
 	detail := ""
 	for _, rec := range lab.Coord.Log() {
